@@ -432,6 +432,24 @@ def zoned_section(ctx):
 
 
 # ------------------------------------------------------------------ running
+def utf8_section(ctx):
+    """coq/C09/Utf8.v proves that the byte order of `encode` is the code-point order; here the Coq `utf8` function is
+    compared with an independent encoder (CPython) on both ends of every length class, of the surrogate gap and on random scalars."""
+    r = ctx.rng
+    pts = [0, 1, 0x41, 0x7F, 0x80, 0xE9, 0x7FF, 0x800, 0x20AC, 0xD7FF, 0xE000, 0xFFFD, 0xFFFF, 0x10000, 0x1F600, 0x3FFFF, 0x40000, 0xFFFFF, 0x100000, 0x10FFFF]
+    while len(pts) < ctx.pick(400, 4000):
+        c = r.choice([r.randrange(0x80), r.randrange(0x80, 0x800), r.randrange(0x800, 0x10000), r.randrange(0x10000, 0x110000)])
+        if not 0xD800 <= c <= 0xDFFF:
+            pts.append(c)
+    hdr = 'From Coq Require Import List NArith.\nFrom DV Require Import C09.Utf8.\nImport ListNotations.\nOpen Scope N_scope.\n'
+    got = ctx.run_model(hdr, ['map utf8 [%s]' % '; '.join(str(c) for c in pts)], tag='utf8%d' % os.getpid())[0]
+    for c, m in zip(pts, got):
+        want = list(chr(c).encode('utf-8'))
+        if list(m) != want:
+            ctx.corr_broken('the Coq utf8 function differs from the UTF-8 encoding', {'code_point': c}, want, list(m))
+    return {'utf8_points_compared': len(pts)}
+
+
 def code(j):
     return NULL if j is None else TRUE if j is True else FALSE if j is False else OTHER
 
@@ -575,6 +593,7 @@ def run(ctx):
     check_triples(ctx, rt, rtimpl, rtmodel, 'random triple:')
     ctx.sample({'random_group': [v.feel for v in groups[-1]]})
     zcov = zoned_section(ctx)
+    zcov.update(utf8_section(ctx))
     kinds = {}
     for v in A:
         kinds[v.kind] = kinds.get(v.kind, 0) + 1
@@ -591,7 +610,8 @@ def run(ctx):
                    'alphabet_triples': len(tset), 'random_groups': len(groups), 'model_variant': 'orig' if ORIG else 'current', **zcov},
         assumptions=['the Coq model covers times and date-times with explicit offsets or Z; named zones are checked by laws and a zoneinfo oracle (years 1990..2021, no ambiguous or skipped local times); local times depend on the host and are not used',
                      'context keys are plain single-part names'],
-        trusted=['String::cmp / Name::cmp compare UTF-8 bytes; that this is the code-point order of the model is exercised on mixed-plane strings, not proved',
+        trusted=['String::cmp / Name::cmp compare the UTF-8 bytes of a Rust String (language / std guarantee); that the lexicographic byte order of the encodings equals the code-point order '
+                 'of the model is PROVED for all strings of scalar values (C09_utf8_order_is_code_point_order, coq/C09/Utf8.v); the Coq utf8 function is compared with an independent encoder on all class boundaries',
                  'decNumber compare is exact (modelled as exact comparison of c*10^e); chrono instants of date-times (modelled with days_from_civil)'])
 
 
@@ -623,5 +643,5 @@ def replay(ctx, path):
 
 MANIFEST = dict(
     technique='Coq proof (transliteration of eval_ternary_equality and the comparison / logic / between / in evaluators; symmetry, negation, mirror, Kleene, trichotomy and between/in/conjunction laws for all values) with exhaustive-alphabet model/code correspondence',
-    text="Theorems (coq/Props/C09.v, closed under the global context) hold for all values of any nesting depth (contexts with unique sorted keys): 'and'/'or' are the Kleene tables with every non-boolean as null; a = b and b = a agree; != is the negation; < / > and <= / >= are mirror images for all pairs including mixed kinds; for numbers, strings and dates exactly one of <, =, > holds, <= is (< or =), and between, in [a..b] and the conjunction agree with open ends as strict comparisons. Tied to feel-evaluator/src/builders.rs by running all ordered pairs x 9 operators and the triples of a value alphabet plus random numbers / strings / dates through parse + evaluate; the laws are evaluated on the implementation's own answers and all answers are compared with the model.",
-    note='Trusted: Coq kernel + vm_compute, hand-written model of builders.rs and of the comparison primitives (correspondence-checked), UTF-8 byte order = code-point order, exactness of decNumber compare, harness. Local times / named zones are out of scope (C14/C15).')
+    text="Theorems (coq/Props/C09.v, closed under the global context) hold for all values of any nesting depth (contexts with unique sorted keys): 'and'/'or' are the Kleene tables with every non-boolean as null; a = b and b = a agree; != is the negation; < / > and <= / >= are mirror images for all pairs including mixed kinds; strings are ordered by code point and this is proved to be the order of their UTF-8 bytes (what Rust compares) for all strings; for numbers, strings and dates exactly one of <, =, > holds, <= is (< or =), and between, in [a..b] and the conjunction agree with open ends as strict comparisons. Tied to feel-evaluator/src/builders.rs by running all ordered pairs x 9 operators and the triples of a value alphabet plus random numbers / strings / dates through parse + evaluate; the laws are evaluated on the implementation's own answers and all answers are compared with the model.",
+    note='Trusted: Coq kernel + vm_compute, hand-written model of builders.rs and of the comparison primitives (correspondence-checked), Rust strings being UTF-8 and compared bytewise (byte order = code-point order is proved, not trusted), exactness of decNumber compare, harness. Local times / named zones are out of scope (C14/C15).')
